@@ -240,6 +240,10 @@ func (s *seqCounters) add(seqNr uint32) {
 		if s._nrCounters == s.windowSize {
 			nrToDrop++
 		}
+		if nrToDrop > s._nrCounters {
+			// seqNr jumped by at least a full window: all counters are dropped
+			nrToDrop = s._nrCounters
+		}
 		if nrToDrop > 0 {
 			copy(s.counters, s.counters[nrToDrop:])
 			s._nrCounters -= nrToDrop
